@@ -279,6 +279,9 @@ def catalogue():
                                          .query(_QPTS if s == "spherical" else _QXYZ, k=1)))(kind, system, recon))
             nm = "kd_tree:%s:%s" % (kind, system)
             add(nm, (lambda k, s: (lambda g: g.get_kd_tree(k, coordinate_system=s).query(_QXYZ if s == "cartesian" else _QPTS[:, ::-1], k=1)))(kind, system))
+    for metric in ("chebyshev", "manhattan"):
+        add("kd_tree:face centers:cartesian:" + metric, (lambda mt: (lambda g: g.get_kd_tree("face centers", coordinate_system="cartesian", distance_metric=mt).query(_QXYZ, k=2)))(metric))
+        add("ball_tree:nodes:cartesian:False:" + metric, (lambda mt: (lambda g: g.get_ball_tree("nodes", coordinate_system="cartesian", distance_metric=mt).query(_QXYZ, k=2)))(metric))
     add("isel:n_face", lambda g: g.isel(n_face=[0, g.n_face - 1]))
     add("isel:n_node", lambda g: g.isel(n_node=[0]))
     add("isel:n_edge", lambda g: g.isel(n_edge=[0, 1]))
@@ -339,6 +342,20 @@ def _deep(v):
 SOURCES = ["topology", "mpas", "ugrid", "face_vertices"]
 
 
+def rich_mesh(rng, max_faces=40):
+    """Mesh descriptor with enough going on for a leak to be visible: 12..max_faces faces, closed or a large random part (so that
+    antimeridian faces, boundary edges, mixed sizes occur) - single faces and isolated-face sets hide most state."""
+    for _ in range(200):
+        d = gen.random_mesh(rng, max_faces)
+        ops = d.get("ops", [])
+        if any(o[0] == "partial" and (o[1][2] != "random" or o[1][1] < 0.6) for o in ops):
+            continue
+        n = gen.build(d).n_face
+        if 12 <= n <= max_faces + 10:
+            return d
+    return {"family": "polyhedron", "name": "dodecahedron", "ops": []}
+
+
 def cases(tier, seed):
     rng = np.random.default_rng([seed, 808])
     names = sorted(catalogue().keys())
@@ -356,8 +373,8 @@ def cases(tier, seed):
         pairs = [pairs[k] for k in keep]
     chunk = 60
     for lo in range(0, len(pairs), chunk):
-        yield {"kind": "pairs", "pairs": [[names[i], names[j], x] for i, j, x in pairs[lo:lo + chunk]], "mesh": gen.random_mesh(rng, 30),
-               "mesh_b": gen.random_mesh(rng, 30), "source": SOURCES[(lo // chunk) % 4], "source_b": SOURCES[(lo // chunk + 1) % 4], "sseed": int(rng.integers(0, 10**6))}
+        yield {"kind": "pairs", "pairs": [[names[i], names[j], x] for i, j, x in pairs[lo:lo + chunk]], "mesh": rich_mesh(rng, 30),
+               "mesh_b": rich_mesh(rng, 30), "source": SOURCES[(lo // chunk) % 4], "source_b": SOURCES[(lo // chunk + 1) % 4], "sseed": int(rng.integers(0, 10**6))}
     nh = 100 if tier == "quick" else 8000
     for i in range(nh):
         L = int(rng.integers(3, 26))
@@ -371,7 +388,7 @@ def cases(tier, seed):
                 sib = [x for x in names if x.split(":")[0] == fam]
                 nm = sib[int(rng.integers(0, len(sib)))]
             hist.append([int(rng.integers(0, ng)), nm])
-        yield {"kind": "history", "history": hist, "meshes": [gen.random_mesh(rng, 30 if i % 4 else 120) for _ in range(ng)],
+        yield {"kind": "history", "history": hist, "meshes": [rich_mesh(rng, 30 if i % 4 else 120) for _ in range(ng)],
                "sources": [SOURCES[int(rng.integers(0, 4))] for _ in range(ng)], "sseed": int(rng.integers(0, 10**6))}
 
 
